@@ -49,6 +49,14 @@ request, the next DoWhile iteration, a complete load - runs one whole store): no
 descriptions and the directory must reload as that experiment.  Every opening of a directory is also compared with
 coq/Reload/Dir.v open_experiment ([parsed as package, update, description existed] -> was the file written).
 
+Also generated (seventh round): LONG loops (long_loop_ks: k = 9..12 systematically, some beyond, thorough up to 101).  A running
+experiment instantiates iteration after iteration on ONE WorkflowGraph whose state (placeholders, documents, merged graphs) is
+kept between the calls, an experiment loaded from the directory builds its graph from the stored description at once; iteration
+numbers with more digits than the ones before them (10 after 9) are where an order on the text of an instance name parts from
+the numeric one.  Compared in addition: `producers` (which instance feeds every reference, through the placeholders), every
+placeholder against what k further iterations must give (predicate_loop_latest: independent of the reload) and against
+coq/Reload/Loops.v check_loop (the live side as k steps on one state, the reloaded side as one load of the stored instances).
+
 The configuration generator builds on harness/c04.py (same layer slots / clash patterns: an option or a variable
 defined independently on default/platform/foreign-platform global+stage blueprints, component, per-platform overrides,
 two user variable files) but draws schema-valid values, because a package must pass validation to be instantiated."""
@@ -61,7 +69,7 @@ import os
 import c04
 import c05
 import c07_impl
-from common import cstr, clist, cjv, copt, cbool, NPROC
+from common import cstr, clist, cjv, copt, cbool, cnat, NPROC
 
 PROP = 'C07'
 COQ_DIR = 'Reload'
@@ -76,7 +84,10 @@ ASSUMPTIONS = [
     '(no stage/override/$import in blueprints and platform override; a repeatInterval there is allowed since F7d was repaired)',
     'direct references into manifest (:link / :copy) top-level folders: the model stores references verbatim; that they are '
     'still read as references to folders after the reload is checked on the implementation only (references, edges, reload)',
-    'DoWhile instances (loop iterations before the reload) are covered by the predicate on the implementation only',
+    'DoWhile instances (loop iterations before the reload): the node set / configuration / references of the instances are covered '
+    'by the predicate on the implementation only; the loop placeholders over time (which instances a placeholder stands for and which '
+    'one is the latest, live graph after k iterations vs graph built from the stored description) are modelled (coq/Reload/Loops.v, '
+    'C07_loops_*) and compared with the implementation for every placeholder of every loop case',
     'stores after the experiment was built (on request, after a loop iteration, by a reloaded experiment): the model has no notion '
     'of time - flatten is a function of the package - so the description compared with the model is the LAST one the live '
     'experiment stored before the reload, and that later stores leave the description alone is checked on the implementation',
@@ -92,6 +103,7 @@ ASSUMPTIONS = [
 HEADER = 'Require Import V.Lib.JTree V.Conf.Model V.Reload.Model.\nOpen Scope string_scope.'
 CHECKER = 'check_case'
 HEADER_DIR = 'Require Import V.Reload.Dir.'
+HEADER_LOOPS = 'Require Import V.Reload.Loops.\nOpen Scope string_scope.'
 CORPUS = os.path.join(os.path.dirname(os.path.abspath(__file__)), 'corpus', 'c07')
 
 put, get, leaves, layer_slot, prune = c04.put, c04.get, c04.leaves, c04.layer_slot, c04.prune
@@ -849,6 +861,23 @@ def explore(ctx, cases, parallel=True):
                      'and did not store its own description (parsed as a %s)' % ('package' if o[0] else 'instance'), [])
         ctx.disagree({'case': case}, {'opening': o}, None, 'C07 opening a directory (Experiment.__init__ / _generate_instance_files) '
                                                           'vs Reload.Dir.open_experiment: [package, update, existed, written]')
+    # the loop placeholders over time (Loops.v): k next_iteration steps on one live state / load of the stored instances
+    lterms, lowners = [], []
+    for case, obs in zip(cases, observations):
+        if case['kind'] != 'loop' or 'live' not in obs or 'error' in (obs['live'].get('placeholders') or {}):
+            continue
+        view = lambda v: '(%s, %s)' % (cstr(v.get('latest', '')), clist(v.get('represents', []), cstr))
+        for p, v in sorted(obs['live']['placeholders'].items()):
+            st, name = p.split('.', 1)
+            rl = [(r.get('placeholders') or {}).get(p) or {} for r in obs['reloads'] if 'error' not in r]
+            lterms.append('((%s%%N, %s, %s), %s, %s)' % (int(st[5:]), cstr(name), cnat(case['k']), view(v), clist(rl, view)))
+            lowners.append((case, p, v, rl))
+    ctx.count('model_cases_loop_placeholders', len(lterms))
+    for i in ctx.model_mismatches(HEADER_LOOPS, lterms, 'check_loop', chunk=400, name='c07loops'):
+        case, p, v, rl = lowners[i]
+        ctx.disagree({'case': case}, {'placeholder': p, 'live': v, 'reloaded': rl}, None,
+                     'C07 loop placeholders (live: instantiate_dowhile_next_iteration x k on one graph; reloaded: built from the stored '
+                     'description) vs Reload.Loops.after / load')
     bad = ctx.model_mismatches(HEADER, terms, CHECKER, chunk=10, name='c07')
     for k, i in enumerate(bad):
         case, obs = owners[i]
